@@ -325,3 +325,25 @@ Proof.
   exact (conj C03.SitesTie.unwinder_table_agrees (conj C03.SitesTie.guard_const_agrees C03.SitesTie.inline_first_depth_agrees)).
 Qed.
 Print Assumptions c03_sites_match_source.
+
+(* ---- jmp / call through memory (InstructionPointerUpdate): the u64 read out of the memory list is total by
+   construction (checked_sub, pread); what is proved is that a value is only ever returned when all 8 bytes lie in ONE
+   region of the list (and below 2^64), and that a read cut off by the end of its region fails whatever follows it *)
+Theorem c03_read_u64_inside_one_region : forall rs addr v, wf_regions rs -> 0 <= addr < two64 ->
+  read_u64_at rs addr = Some v ->
+  exists m, In m rs /\ r_base m <= addr /\ addr + 8 <= r_base m + r_size m /\ addr + 8 <= two64 /\
+            v = le_value (firstn 8 (skipn (Z.to_nat (addr - r_base m)) (r_bytes m))).
+Proof. exact read_u64_inside. Qed.
+Print Assumptions c03_read_u64_inside_one_region.
+
+Theorem c03_read_u64_never_stitches : forall rs addr m, wf_regions rs -> 0 <= addr < two64 ->
+  memory_at rs addr = Some m -> r_base m + r_size m < addr + 8 -> read_u64_at rs addr = None.
+Proof. exact read_u64_never_stitches. Qed.
+Print Assumptions c03_read_u64_never_stitches.
+
+Example c03_nonvacuous_read_u64 :
+  let rs := [ {| r_base := 4096; r_size := 9; r_bytes := [1; 2; 3; 4; 5; 6; 7; 8; 9] |} ] in
+  wf_regions rs /\ read_u64_at rs 4097 = Some 650777868590383874 /\ read_u64_at rs 4098 = None.
+Proof.
+  split; [intros r [H|[]]; subst r; unfold wf_region; cbn; lia|]. split; vm_compute; reflexivity.
+Qed.
